@@ -162,3 +162,31 @@ Theorem C03_spinfree_same_kind_swap :
   sval R rO radd ropp norb L (pre ++ [x; y] ++ post) V d = ropp (sval R rO radd ropp norb L (pre ++ [y; x] ++ post) V d).
 Proof. exact sval_swap_same_kind. Qed.
 Print Assumptions C03_spinfree_same_kind_swap.
+
+(* the D-vector route of the implementation's RDM kernels (RdmKH.v): with D-vectors D_jl = E_jl|ket>, D'_ki = E_ki|bra>,
+     <bra| sum_{rho,eta} a†_{i rho} a†_{j eta} a_{k rho} a_{l eta} |ket> = delta_kj <bra|E_il|ket> - <D'_ki | D_jl>
+   for every orbital count, index tuple, bra and ket, over any commutative ring with an involutive conjugation; the 1-RDM
+   contraction of the bra with the table push-forward is the matrix element of the one-body operator *)
+From Coq Require Import Ring.
+From FQE Require Import TableThm DvecThm RdmKH.
+Theorem C03_two_rdm_by_dvectors :
+  forall (R : Type) (rO rI : R) (radd rmul rsub : R -> R -> R) (ropp : R -> R),
+  ring_theory rO rI radd rmul rsub ropp eq ->
+  forall rconj : R -> R,
+  (forall a b, rconj (rmul a b) = rmul (rconj a) (rconj b)) -> (forall a, rconj (ropp a) = ropp (rconj a)) ->
+  (forall a, rconj (rconj a) = a) ->
+  forall norb i j k l (x y : vec R), j < norb -> k < norb -> wide R (norb + norb) y ->
+  inner R rO radd rmul rconj x (act_poly R rmul ropp (two_body_terms R norb rI i j k l) y)
+  = radd (if Nat.eqb k j then inner R rO radd rmul rconj x (act_poly R rmul ropp (E R rI norb i l) y) else rO)
+         (ropp (inner R rO radd rmul rconj (act_poly R rmul ropp (E R rI norb k i) x) (act_poly R rmul ropp (E R rI norb j l) y))).
+Proof. exact rdm2_by_dvectors. Qed.
+Print Assumptions C03_two_rdm_by_dvectors.
+
+Theorem C03_one_rdm_by_tables :
+  forall (R : Type) (rO rI : R) (radd rmul rsub : R -> R -> R) (ropp : R -> R),
+  ring_theory rO rI radd rmul rsub ropp eq ->
+  forall (rconj : R -> R) norb (h : nat -> nat -> R) (x : vec R) (v : svec R),
+  inner R rO radd rmul rconj x (vecof R norb (apply1 R rmul ropp norb h v))
+  = inner R rO radd rmul rconj x (act_poly R rmul ropp (one_body_poly R norb h) (vecof R norb v)).
+Proof. exact rdm1_by_tables. Qed.
+Print Assumptions C03_one_rdm_by_tables.
